@@ -234,7 +234,10 @@ class Trajectory(PymatgenTrajectory):
         kwargs.setdefault('parse_potcar_file', False)
 
         if not cache:
-            serialized = json.dumps(kwargs, sort_keys=True).encode()
+            # every option that changes the resulting trajectory must select its own cache
+            serialized = json.dumps(
+                {**kwargs, 'constant_lattice': constant_lattice}, sort_keys=True
+            ).encode()
             hashid = hashlib.sha1(serialized).hexdigest()[:8]
             cache = Path(xml_file).with_suffix(f'.xml.{hashid}.cache')
 
@@ -324,6 +327,10 @@ class Trajectory(PymatgenTrajectory):
                 'data_file': data_file,
                 'temperature': temperature,
                 'time_step': time_step,
+                'coords_format': coords_format,
+                'atom_style': atom_style,
+                'type_mapping': type_mapping,
+                'constant_lattice': constant_lattice,
             }
             serialized = json.dumps(kwargs, sort_keys=True).encode()
             hashid = hashlib.sha1(serialized).hexdigest()[:8]
@@ -424,6 +431,7 @@ class Trajectory(PymatgenTrajectory):
                 'coords_file': coords_file,
                 'edr_file': edr_file,
                 'temperature': temperature,
+                'constant_lattice': constant_lattice,
             }
             serialized = json.dumps(kwargs, sort_keys=True).encode()
             hashid = hashlib.sha1(serialized).hexdigest()[:8]
